@@ -11,7 +11,7 @@ VERIF = os.path.dirname(os.path.dirname(os.path.abspath(__file__)))
 WRAPS = """main open close read write pread pwrite lseek unlink rename ftruncate opendir readdir closedir
 socket socketpair pipe bind listen accept connect getsockname getsockopt setsockopt send sendto recvfrom
 epoll_create epoll_ctl epoll_wait shm_open shm_unlink fork kill waitpid execvp setsid abort
-time nanosleep alarm srand geteuid getuid getpid gethostname sched_getaffinity sched_setaffinity
+time nanosleep alarm srand getrusage geteuid getuid getpid gethostname sched_getaffinity sched_setaffinity
 _ZNSt6chrono3_V212system_clock3nowEv _ZNSt6chrono3_V212steady_clock3nowEv _ZNSt13random_device9_M_getvalEv
 _Z9ipcCreateiPKcPKS0_S0_RN2Ip7AddressEPiS6_PPv
 _ZN3Ipc8StoreMap16closeForUpdatingERNS_14StoreMapUpdateE""".split()
